@@ -464,6 +464,44 @@ def rt_run(case):
     return ck.result()
 
 
+# ---------------------------------------------------------------------------------------------- wide dynamic range, exact
+@st.composite
+def wide_case(draw, tier="quick"):
+    sm = st.integers(1, 9)
+    return {"op": draw(st.sampled_from(["join", "meet"])), "a": draw(sm), "b": draw(sm), "c": draw(st.integers(-9, 9)), "e": draw(st.sampled_from([1, -1, 2, 3, -3])),
+            "ka": draw(st.sampled_from([20, 30])), "kb": draw(st.sampled_from([10, 20])), "swap": draw(st.booleans())}
+
+
+def run_wide(c):
+    """two points (a*2^ka, b*2^kb, 1) and (c, b*2^kb + e, 1) - or dually two lines with these coefficients: every product and sum of
+    the cross product is exactly representable, the entries of the result span up to 50 binary orders of magnitude. The result
+    must be exactly proportional (by a power of two) to the exact cross product: an entry may be tiny, it is not noise."""
+    a, b, cc, e, ka, kb = c["a"], c["b"], c["c"], c["e"], c["ka"], c["kb"]
+    if not (1 <= a <= 9 and 1 <= b <= 9 and -9 <= cc <= 9 and e in (1, -1, 2, 3, -3) and ka in (20, 30) and kb in (10, 20)):
+        raise Skip("malformed")
+    u = [a * 2**ka, b * 2**kb, 1]
+    w = [cc, b * 2**kb + e, 1]
+    if c["swap"]:
+        u, w = w, u
+    exact = [u[1] * w[2] - u[2] * w[1], u[2] * w[0] - u[0] * w[2], u[0] * w[1] - u[1] * w[0]]
+    if any(abs(x) >= 2**53 for x in exact + u + w) or not any(exact):
+        raise Skip("not exactly representable")
+    fu, fw = np.array(u, float), np.array(w, float)
+    if c["op"] == "join":
+        r, f = call("wide:join", join, Point(fu), Point(fw))
+    else:
+        r, f = call("wide:meet", meet, Line(fu), Line(fw))
+    if f:
+        return [f]
+    ck = Checker()
+    got = np.asarray(r.array, float)
+    k = int(np.argmax(np.abs(exact)))
+    # exact proportionality: got[i] * exact[k] == exact[i] * got[k] in exact rational arithmetic (all numbers are dyadic)
+    ok = all(Fraction(float(got[i])) * exact[k] == Fraction(exact[i]) * Fraction(float(got[k])) for i in range(3)) and got[k] != 0
+    ck.check(ok, f"wide:{c['op']}:exactly-the-cross-product", (got.tolist(), [int(x) for x in exact]))
+    return ck.result()
+
+
 LAWS = [
     Law(
         name=k,
@@ -476,6 +514,9 @@ LAWS = [
         mandatory=("collection", "complex", "single") + (("mixed-magnitude-collection",) if k in ("join_pp2", "meet_ll2", "join_pp3") else ()) + (("collections-of-different-rank",) if k in ("join_ppp3", "meet_eee3") else ()),
     )
     for k in KINDS
+] + [
+    Law("wide_range_exact", lambda tier: wide_case(tier), run_wide, lambda c: True, lambda c: [c["op"], f"spread=2^{c['ka'] + c['kb']}"], {"quick": 300, "thorough": 4000},
+        "join / meet in the plane on exactly representable data whose result spans ~50 binary orders of magnitude: exact proportionality to the cross product"),
 ] + [
     Law(
         name=f"roundtrip{d}",
